@@ -21,11 +21,12 @@ fn run(items: &[It], sort: bool, shuffle: bool, padded: bool, prefetch: usize, l
     items.to_vec().into_iter().batched(sort, shuffle, prefetch, limit, lt, Some(seed)).collect()
 }
 
-fn lim_of(padded: bool, b: &[It]) -> usize {
+/// count, or count times largest item size — exactly (the product of two usize values fits into a u128)
+fn lim_of(padded: bool, b: &[It]) -> u128 {
     if padded {
-        b.len() * b.iter().map(|x| x.size).max().unwrap_or(0)
+        b.len() as u128 * b.iter().map(|x| x.size).max().unwrap_or(0) as u128
     } else {
-        b.len()
+        b.len() as u128
     }
 }
 
@@ -58,7 +59,7 @@ pub fn exec(op: &str, a: &[u64]) -> Result<Outcome, String> {
     want.sort();
     o.check(all == want, "batches do not partition the items (lost or duplicated item)");
     o.check(batches.iter().all(|b| !b.is_empty()), "empty batch");
-    let l = limit.max(1);
+    let l = limit.max(1) as u128;
     o.check(batches.iter().all(|b| b.len() <= 1 || lim_of(padded, b) <= l), "batch with more than one item exceeds the limit");
     let again = run(&items, sort, shuffle, padded, prefetch, limit, seed);
     o.check(again == batches, "not a deterministic function of the seed");
@@ -125,6 +126,19 @@ pub fn run_c06(ctx: &mut Ctx) {
             for flags in 0..8u64 {
                 for pf in [0usize, 1, 2, 3, m] {
                     let items: Vec<It> = [3usize, 0, 8, 1, 5, 2].iter().enumerate().map(|(i, &s)| It { id: i as u64, size: s }).collect();
+                    emit(ctx, &items, flags & 1 != 0, flags & 2 != 0, flags & 4 != 0, pf, limit, 7);
+                }
+            }
+        }
+    }
+    if ctx.first_shard() {
+        // item sizes at the top of the usize range (the quantifier: ALL finite sequences of item sizes, "items larger
+        // than the limit"): count * largest size must not overflow
+        let m = u64::MAX as usize;
+        for sizes in [vec![m / 2 + 1, m / 2 + 1, 3], vec![3, m, 1, m], vec![m / 3 + 1, m / 3 + 1, m / 3 + 1, 2], vec![1, 2, m / 2, m / 2, m / 2], vec![m]] {
+            let items: Vec<It> = sizes.iter().enumerate().map(|(i, &s)| It { id: i as u64, size: s }).collect();
+            for flags in 0..8u64 {
+                for (pf, limit) in [(1usize, 8usize), (2, 1), (0, m / 2), (3, m - 1)] {
                     emit(ctx, &items, flags & 1 != 0, flags & 2 != 0, flags & 4 != 0, pf, limit, 7);
                 }
             }
